@@ -590,6 +590,7 @@ pub fn run(rep: &Arc<Report>) {
     let per_dialect: Mutex<BTreeMap<String, u64>> = Mutex::new(BTreeMap::new());
     let mut n_trees_total = 0u64;
     let mut transitions = 0u64;
+    let mut chain_cases = 0u64;
     for d in DIALECTS {
         let o = ops(d);
         // (i) all trees with <= full_n operator nodes over the full alphabet
@@ -634,6 +635,32 @@ pub fn run(rep: &Arc<Report>) {
                 }
             }
         }
+        // (v) long chains of one operator (class representatives): every length up to the bound, left- and right-nested,
+        //     with a plain and with a compound (one node of every representative operator) operand at the deep end - a
+        //     renderer that treats long chains in a way of its own (iteration instead of recursion, blocks) is driven
+        //     through every length
+        let max_chain = if rep.thorough() { 130 } else { 40 };
+        let mut deep: Vec<E> = vec![E::Leaf];
+        for j in &reps {
+            deep.push(E::Bin(*j, Box::new(E::Leaf), Box::new(E::Leaf)));
+        }
+        let mut chains = 0u64;
+        for i in &reps {
+            for dp in &deep {
+                let (mut l, mut r) = (dp.clone(), dp.clone());
+                for len in 2..=max_chain {
+                    l = E::Bin(*i, Box::new(l), Box::new(E::Leaf));
+                    r = E::Bin(*i, Box::new(E::Leaf), Box::new(r));
+                    if len >= 4 {
+                        // shorter ones are part of (i) / (ii)
+                        all.push(l.clone());
+                        all.push(r.clone());
+                        chains += 2;
+                    }
+                }
+            }
+        }
+        chain_cases += chains;
         n_trees_total += all.len() as u64;
         transitions += all.iter().map(|e| count_nodes(e) as u64).sum::<u64>();
         par_items(&all, |_w, e| {
@@ -646,6 +673,7 @@ pub fn run(rep: &Arc<Report>) {
         per_dialect.lock().unwrap().insert(d.name().into(), all.len() as u64);
     }
     rep.set("config", json!(cfg));
+    rep.set("long_chain_trees", json!(chain_cases));
     rep.set("max_operator_nodes_full_alphabet", json!(full_n));
     rep.set("max_operator_nodes_class_representatives", json!(rep_n));
     rep.set("operators_per_dialect", json!(DIALECTS.iter().map(|d| (d.name(), ops(*d).iter().map(|o| o.name).collect::<Vec<_>>())).collect::<BTreeMap<_, _>>()));
